@@ -14,6 +14,7 @@ import (
 	"runtime"
 	"strconv"
 	"strings"
+	"sync"
 	"time"
 )
 
@@ -601,6 +602,7 @@ func (e *Engine) concretise(res *FuncResult, g *Goal, o runOpts) (*Witness, bool
 			}
 			a.Lit = m.vals[term]
 		case sv.T.Sort == SStr:
+			m.prefer(fmt.Sprintf("(and (= (trimSpace %s) %s) (<= (str.len %s) 4))", term, term, term))
 			if !m.ask([]string{term}) {
 				dbg()
 		return nil, false
@@ -1188,6 +1190,10 @@ func (e *Engine) confirmPost(res *FuncResult, g *Goal, w *Witness, out string, o
 			}
 		}
 	}
+	confirmMu.Lock()
+	defer confirmMu.Unlock()
+	queryNoSoft = true // asserted goals and loop invariants are not facts about a concrete execution
+	defer func() { queryNoSoft = false }()
 	q := res.Ctx.QueryExtra(g, pins, nil)
 	r, _ := race(q, o.Workdir, g.Name+"_confirm", o.Timeout, false)
 	if r.Status != "sat" {
@@ -1205,6 +1211,7 @@ func (e *Engine) confirmPost(res *FuncResult, g *Goal, w *Witness, out string, o
 }
 
 var curOpVals []string
+var confirmMu sync.Mutex
 
 func encObserved(enc string, sort string) (string, bool) {
 	switch {
